@@ -1,4 +1,5 @@
 import QM.UnquoteLemmas
+import QM.SpellLemmas
 /-! # C04 — single-valued keys are unquoted as documented in systemd.syntax
 
 `P.unquoteValue true` is the model of `unquote_value` (quoted.rs, after the D2 and D12d repairs), with the
@@ -47,5 +48,42 @@ theorem C04_errors :
 theorem C04_nested_quote_kept :
     unquoteValue true ['"', 's', 'h', ' ', '\'', 'x', ' ', 'y', '\'', '"'] = some ['s', 'h', ' ', '\'', 'x', ' ', 'y', '\''] := by
   simp [unquoteValue, unq, isQuote, endsWs]
+
+
+/-- **every documented spelling reads back**: a value spelled as any sequence of quoted runs (double or single quotes,
+    each starting at the beginning of the value or after whitespace; inside, every character literal except the
+    closing quote and the backslash — so the other kind of quote character is kept verbatim) and bare runs (literal
+    characters, white space included; a quote character only where it cannot start a quoted run), with C-style
+    escapes anywhere, is read as exactly the string it denotes -/
+theorem C04_reads_back (segs : List Seg) (wf : segsWF [] segs) :
+    unquoteValue true (renderSegs segs) = some (denoteSegs segs) := by
+  unfold unquoteValue
+  rw [unq_segs segs [] wf]; simp
+
+/-- wholly double-quoted, wholly single-quoted and unquoted-with-escapes spellings are instances -/
+theorem C04_wholly_quoted (q : Char) (hq : isQuote q = true) (ps : List Piece) (wf : quotedWF q ps) :
+    unquoteValue true (q :: (renderPieces ps ++ [q])) = some (denotePieces ps) := by
+  have := C04_reads_back [Seg.quoted q ps] ⟨hq, rfl, wf, trivial⟩
+  simpa [renderSegs, denoteSegs, Seg.text, Seg.denote] using this
+
+theorem C04_bare (ps : List Piece) (wf : bareWF [] ps) :
+    unquoteValue true (renderPieces ps) = some (denotePieces ps) := by
+  have := C04_reads_back [Seg.bare ps] ⟨wf, trivial⟩
+  simpa [renderSegs, denoteSegs, Seg.text, Seg.denote] using this
+
+/-- the documented escape forms qualify as escapes: the single letters of the table and `\\xHH` -/
+theorem C04_escape_forms :
+    (∀ p ∈ simpleTable, EscOK [p.1] p.2) ∧
+    (∀ c : Char, c.toNat < 128 → c.toNat ≠ 0 → EscOK ['x', hexDigit (c.toNat / 16), hexDigit (c.toNat % 16)] c) :=
+  ⟨escOK_simple, escOK_hex⟩
+
+-- non-vacuity: `foo "a 'b' c" 'x"y' z\tw` is a well-formed spelling (test of the statement, labelled as such)
+example : segsWF [] [Seg.bare [.lit 'f', .lit ' '], Seg.quoted '"' [.lit 'a', .lit ' ', .lit '\'', .lit 'b'],
+    Seg.bare [.lit ' '], Seg.quoted '\'' [.lit 'x', .lit '"'], Seg.bare [.lit ' ', .lit 'z', .esc ['t'] '\t', .lit 'w']] := by
+  refine ⟨⟨by decide, by decide, by simp [isQuote], ⟨by decide, by decide, by simp [isQuote], trivial⟩⟩, ?_⟩
+  refine ⟨by decide, by decide, ⟨by decide, by decide, by decide, by decide, by decide, by decide, by decide, by decide, by decide, by decide, by decide, by decide, trivial⟩, ?_⟩
+  refine ⟨⟨by decide, by decide, by simp [isQuote], trivial⟩, ?_⟩
+  refine ⟨by decide, by decide, ⟨by decide, by decide, by decide, by decide, by decide, by decide, trivial⟩, ?_⟩
+  refine ⟨⟨by decide, by decide, by simp [isQuote], by decide, by decide, by simp [isQuote], escOK_simple ('t', '\t') (by decide), by decide, by decide, by simp [isQuote], trivial⟩, trivial⟩
 
 end P
